@@ -44,7 +44,9 @@ def generate(rng, tier, index):
                 r['tag'] = 'opaque'
     scn['experiment'] = rng.choice(['serialised', 'serialised', 'concurrent', 'isolation'] if fam == 'stream'
                                    else ['serialised', 'serialised', 'concurrent'])
-    if scn['experiment'] == 'serialised':
+    if scn['experiment'] in ('serialised', 'isolation'):
+        # (isolation too: the order in which the victims' writes take effect must not depend on
+        # whether the disturber is present, so their chunks are strictly ordered in time)
         # strictly increasing global times: the front-end is quiescent between chunks
         t = 0.0
         allr = sorted(((r['at'], c, i) for c, reqs in enumerate(scn['conns']) for i, r in enumerate(reqs)))
@@ -55,7 +57,7 @@ def generate(rng, tier, index):
         for c, reqs in enumerate(scn['conns']):
             for i, r in enumerate(reqs):
                 r['at'] = round(0.01 * (i + 1), 6)       # request i of every connection at the same instant
-    else:
+    if scn['experiment'] == 'isolation':
         # isolation: connection 0 is the disturber
         kind = rng.choice(['partial', 'garbage', 'partial_then_rest'])
         victim = scn['conns']
@@ -66,6 +68,13 @@ def generate(rng, tier, index):
         else:
             raw = fr[:rng.randrange(1, len(fr))]
         dist = [{'raw': raw.hex(), 'at': round(0.005 + 0.01 * rng.randrange(0, 4), 6), 'tag': 'hostile', 'hk': kind}]
+        if kind == 'partial_then_rest' and len(raw) < len(fr):
+            # the rest of the frame later: a complete valid request of its own, which may change the
+            # data the victims read - only the framing state must stay private, so use a read
+            fr = codec.frame(scn['framing'], 1, codec.req_read(3, 0, 1), tid=0x4444)
+            cut = rng.randrange(1, len(fr))
+            dist = [{'raw': fr[:cut].hex(), 'at': dist[0]['at'], 'tag': 'hostile', 'hk': kind},
+                    {'raw': fr[cut:].hex(), 'at': round(dist[0]['at'] + 0.02, 6), 'tag': 'hostile', 'hk': kind}]
         scn['conns'] = [dist] + victim
         scn['hostile'] = [0]
         scn['disturb'] = kind
